@@ -1,0 +1,82 @@
+
+module bmserialize(
+	input clk,
+	input reset,
+	input [31:0] o0,
+	input o0_valid,
+	output o0_recv,
+	input [31:0] o1,
+	input o1_valid,
+	output o1_recv,
+	input ack,
+	output [31:0] data,
+	output reg ready,
+	);
+	
+reg [1:0] output_index;
+reg [1:0] SM;
+    
+reg [31:0] localdata;
+
+wire [1:0] valids;
+reg [1:0] recvs;
+    
+wire [31:0] outputs[1:0];
+    
+localparam SMIDLE=2'b00,
+        SMRES=2'b01,
+        SMBM=2'b10;
+	
+always @( posedge clk) begin
+	if (reset) begin
+		ready <= 1'b0;
+		output_index <= 2'd0;
+		SM<=SMIDLE;
+		recvs[1:0] <= 2'd0;
+	end 
+	else begin
+		case (SM)
+		SMIDLE: begin
+			if (valids[output_index]) begin
+				ready <= 1'b1;
+				localdata[31:0] <= outputs[output_index][31:0];
+				SM<=SMRES;
+			end
+			else begin
+				ready <= 1'b0;
+			end
+		end
+		SMRES: begin
+	        	if (ack) begin
+	        		ready <= 1'b0;
+	        		SM<=SMBM;
+	        	end   
+	       	end
+		SMBM: begin
+			if (!valids[output_index]) begin
+				if (output_index + 1 == 2'd2) begin
+					output_index <= 0;
+				end
+				else begin
+					output_index <= output_index + 1;
+				end
+				recvs[output_index] <= 1'b0;
+				SM<=SMIDLE;           
+			end
+			else begin
+				recvs[output_index] <= 1'b1;
+	        	end
+		end
+		endcase
+	end
+end
+	
+assign data[31:0] = localdata[31:0];
+assign outputs[0]=o0[31:0];
+assign o0_recv=recvs[0];
+assign valids[0] = o0_valid;
+assign outputs[1]=o1[31:0];
+assign o1_recv=recvs[1];
+assign valids[1] = o1_valid;
+	
+endmodule 
